@@ -78,6 +78,14 @@ def Action.callName : Action → Option String
   | .adminShutdown => some "shutdownAdminServer"
   | .waitGoroutines => some "wg.Wait"
 
+/-- the calls of `Server.Shutdown` whose order the lifecycle model depends on: the calls the
+model knows, except `stopJWKSRefresher` (the JWKS refresher shares no state with readiness, the
+servers or gossip, so where it is stopped is immaterial); calls the model does not know (a new
+metric flush, say) are ignored -/
+def orderRelevant (c : String) : Bool :=
+  c ∈ ["adminServer.SetReady", "shutdownUpstreamServer", "shutdownProxyServer", "gossiper.Leave",
+    "gossiper.Close", "shutdownAdminServer", "wg.Wait"]
+
 /-- position of the first occurrence of `a` (`none` if absent) -/
 def callIndex (a : String) (l : List String) : Option Nat :=
   let i := l.findIdx (· = a)
